@@ -12,6 +12,11 @@ pub struct History {
     #[serde(default)]
     pub sqlite: bool,
     pub reqs: Vec<Req>,
+    /// store calls (numbered over the whole history) that fail with a transient error (in-memory store only).
+    /// Non-empty => the "transient store errors" campaign: a failed operation changes nothing that the
+    /// application can see, a failed `sync()` may be retried, a request whose finalisation fails ends the case.
+    #[serde(default)]
+    pub fail_calls: Vec<u8>,
 }
 
 thread_local! {
@@ -27,7 +32,8 @@ pub fn oracle(h: &History) -> CaseResult {
 }
 
 async fn run(h: &History) -> CaseResult {
-    let store = crate::stores::make_store(h.sqlite).await;
+    let faulty = !h.fail_calls.is_empty();
+    let store = if faulty { pavex_session::SessionStore::new(crate::c12_chaos::FaultyStore::new(&h.fail_calls, &[])) } else { crate::stores::make_store(h.sqlite).await };
     let config = h.cfg.session_config();
     let processor = encrypting_processor(&config.cookie.name);
     let mut w = World::default();
@@ -70,6 +76,18 @@ async fn run(h: &History) -> CaseResult {
         let mut loaded_then_mutated = false;
         let mut loaded = false;
         for (oi, op) in ops.iter().enumerate() {
+            if *op == Op::Sync && faulty {
+                // a sync that fails (injected) may leave the store half-way; what the application sees does not change,
+                // and the next sync / the finalisation completes the work
+                match session.sync().await {
+                    Ok(()) => {
+                        let _ = m.sync(&mut w);
+                        info.lab("op:sync");
+                    }
+                    Err(_) => info.lab("op:sync-failed(injected)"),
+                }
+                continue;
+            }
             if *op == Op::Sync {
                 let expect = m.sync(&mut w);
                 let got = session.sync().await;
@@ -93,12 +111,20 @@ async fn run(h: &History) -> CaseResult {
                 continue;
             }
             let was_loaded = m.srv != Srv::Unloaded;
+            let (m_before, w_before) = if faulty { (Some(m.clone()), Some(w.clone())) } else { (None, None) };
             let Some(expected) = m.apply(&mut w, op) else {
                 info.lab("op:skipped-undocumented(insert-after-delete)");
                 continue;
             };
             let got = match real_op(&mut session, op).await {
                 Ok(v) => v,
+                Err(_) if faulty => {
+                    // the store call behind this operation failed: the operation did not happen
+                    m = m_before.unwrap();
+                    w = w_before.unwrap();
+                    info.lab("op:failed(injected)");
+                    continue;
+                }
                 Err(e) => {
                     return Err(Fail::new(
                         format!("op-error:{}", op_kind(op)),
@@ -135,6 +161,11 @@ async fn run(h: &History) -> CaseResult {
         let expect_sync = m.sync(&mut w);
         let fin = real_finalize(session, &processor, &config.cookie.name).await?;
         let new_sym = m.id.cur();
+        if faulty && matches!(fin, Finalized::Err(..)) {
+            // the request failed: nothing is promised about what the next request sees
+            info.lab("finalize:failed(injected), case ends");
+            return Ok(info);
+        }
         match fin {
             Finalized::Err(kind, chain) => match expect_sync {
                 SyncOutcome::RenameOfMissingUnloaded => {
@@ -347,7 +378,7 @@ pub fn req_strategy(with_sync: bool) -> impl Strategy<Value = Req> {
 
 pub fn history_strategy(sqlite: bool, with_sync: bool) -> impl Strategy<Value = History> {
     (cfg_strategy(), prop::collection::vec(req_strategy(with_sync), 1..=7))
-        .prop_map(move |(cfg, reqs)| History { cfg, sqlite, reqs })
+        .prop_map(move |(cfg, reqs)| History { cfg, sqlite, reqs, fail_calls: vec![] })
 }
 
 pub fn main(mut chk: Check) -> ! {
@@ -369,5 +400,15 @@ pub fn main(mut chk: Check) -> ! {
     chk.run("histories", n, history_strategy(false, true), oracle);
     let n2 = chk.tier().pick(7_500, 60_000);
     chk.run("histories-sqlite", n2, history_strategy(true, true), oracle);
+    // third campaign: transient store errors (1-4 store calls of the history fail); failed operations and failed
+    // syncs are invisible to the application, a later sync / the finalisation completes the work; after a successful
+    // finalisation everything above is asserted as usual
+    chk.ev.rule.push_str(" || campaign transient-store-errors: the same histories against a store wrapper that fails 1-4 chosen store calls: a failed operation leaves the model untouched, a failed sync() is retried by the next sync / the finalisation, a failing finalisation ends the case; after a successful finalisation the emitted cookie, the store content and the next request's observations are asserted as in the first campaign");
+    let n3 = chk.tier().pick(40_000, 300_000);
+    let faulty = (history_strategy(false, true), prop::collection::vec(0u8..20, 1..=4)).prop_map(|(mut h, f)| {
+        h.fail_calls = f;
+        h
+    });
+    chk.run("transient-store-errors", n3, faulty, oracle);
     chk.finish()
 }
